@@ -1,1 +1,5 @@
 pub mod arith;
+pub mod duration;
+pub mod decimal;
+pub mod units;
+pub mod calendar;
